@@ -203,6 +203,44 @@ def norm_lean(ans):
 
 
 # ---------------------------------------------------------------------------------------------------
+# the evaluator model (Model/Interp.lean `runProgramWith`) on the same files: the harness dumps the tree of every file
+# (`ast`), the driver op `runfilesast` runs the main tree over the table of trees and answers in the format of `runfiles`
+
+def ast_tables(ctx, cases):
+    """source text ↦ S-expression of its tree (None: the file does not compile), one `ast` call per distinct text"""
+    texts = []
+    seen = set()
+    for c in cases:
+        for f in c['files']:
+            t = render_file(f)
+            if t not in seen:
+                seen.add(t)
+                texts.append(t)
+    ans = run_go_retry(ctx, ['ast ' + cps(t) for t in texts])
+    return {t: (a[3:] if a.startswith('ok ') else None) for t, a in zip(texts, ans)}
+
+
+def interp_line(case, asts):
+    pre = case.get('prefix', [])
+    fs = ['runfilesast', hx('/'.join(pre + case['main'])), str(len(case['files']))]
+    for f in case['files']:
+        sx = asts.get(render_file(f))
+        toks = sx.split(' ') if sx else []
+        fs += [hx('/'.join(pre + f['path'])), str(len(toks))] + toks
+    return ' '.join(fs)
+
+
+def run_interp(ctx, cases):
+    """raw answers of the evaluator model, comparable with the raw `runfiles` answers (result, trace, error code, location chain)"""
+    asts = ast_tables(ctx, cases)
+    return ctx.run_lean([interp_line(c, asts) for c in cases])
+
+
+def interp_agrees(go_raw, interp_raw):
+    return go_raw == interp_raw
+
+
+# ---------------------------------------------------------------------------------------------------
 # generators
 
 def base(i):
@@ -945,6 +983,7 @@ def run3(ctx, cases):
     go = run_go_retry(ctx, [go_line(c) for c in cases])
     model = ctx.run_lean([lean_line(c) for c in cases])
     spec = ctx.run_lean([lean_line(c, 'spec:modgraph') for c in cases])
+    ctx._c15_raw = (go, run_interp(ctx, cases))
     return [norm_go(x) for x in go], [norm_lean(x) for x in model], [norm_lean(x) for x in spec]
 
 
@@ -1026,6 +1065,19 @@ def compare(ctx, stream, cases, check_plain=False, prop=None):
     for lo in range(0, len(cases), 8000):
         part = cases[lo:lo + 8000]
         go, model, spec = run3(ctx, part)
+        go_raw, interp_raw = ctx._c15_raw
+        for c, gr, ir in zip(part, go_raw, interp_raw):
+            # Go = evaluator model (Model/Interp.lean with modules) on the whole answer: result, trace, error code, location chain
+            ctx.evaluations += 1
+            if ir == 'unmodelled':
+                ctx.count('interp_unmodelled')
+            elif gr != ir:
+                ctx.count('interp_disagreement')
+                ctx.disagreement(stream + ':interp', case_key(c), gr, ir)
+            else:
+                ctx.count('interp_agrees')
+                if gr.startswith('err') and '>' in gr.split(' | ')[0]:
+                    ctx.count('interp_agrees_on_error_chain_across_modules')
         for c, g, m, s in zip(part, go, model, spec):
             ctx.evaluations += 1
             ctx.count('outcome_' + g[0].replace(' ', '_'))
@@ -1169,6 +1221,8 @@ def replay(ctx, data):
         print('--- file', p)
         print(src, end='')
     print('go   :', norm_go(ctx.run_go([go_line(case)])[0]))
+    print('go (raw)        :', ctx.run_go([go_line(case)])[0])
+    print('evaluator model :', run_interp(ctx, [case])[0])
     print('model:', norm_lean(ctx.run_lean([lean_line(case)])[0]))
     print('spec :', norm_lean(ctx.run_lean([lean_line(case, 'spec:modgraph')])[0]))
     print('model of the finder before fix 420e70b (names joined and cleaned):', norm_lean(ctx.run_lean([lean_line(case, 'modgraph-pinned')])[0]))
